@@ -174,6 +174,15 @@ def run(ctx):
             if np.ptp(q[:, 1]) > 0 and np.all(np.diff(q[:, 0]) > 0):
                 pts, fam = q, fam + '@integer'
         one(ctx, pts, dx, dy, dz, x_max, y_range, fam)
+    for _ in range(40 if quick else 800):
+        # strongly NON-MONOTONE curves (random heights on a dyadic grid, 40-80 points): bursts whose selected point lies between two later
+        # candidates of one round - the separation rules are stated against EVERY selected point, not against x-neighbours
+        n = rng.randrange(40, 80)
+        xs = np.cumsum([rng.choice([1, 1, 2]) for _ in range(n)]).astype(float)
+        ys = np.array([rng.randrange(0, 65) / 64.0 for _ in range(n)])
+        if rng.random() < 0.5:
+            ys = np.sort(ys)[::-1] * 0.5 + ys * 0.5          # a noisy decay
+        one(ctx, np.column_stack([xs, ys]), rng.choice([0.01, 0.02, 0.05]), rng.choice([0.02, 0.05, 0.1]), rng.choice([0.2, 0.5, 0.25]), None, None, 'random-heights')
     long_cases(ctx)
 
 
